@@ -267,6 +267,58 @@ fn gen_scim(rng: &mut Rng, w: &Pools, depth: u32) -> SF {
     }
 }
 
+fn base_attrs() -> std::collections::BTreeSet<String> {
+    ["class", "uuid", "name"].iter().map(|x| x.to_string()).collect()
+}
+fn ldap_attrs(f: &LF) -> std::collections::BTreeSet<String> {
+    fn go(f: &LF, out: &mut std::collections::BTreeSet<String>) {
+        let val = |out: &mut std::collections::BTreeSet<String>, a: &str, vs: &[&String]| {
+            out.insert(ldap_attr_map(a));
+            if vs.iter().any(|v| v.contains('@')) {
+                out.insert("spn".to_string());
+            }
+        };
+        match f {
+            LF::And(l) | LF::Or(l) => l.iter().for_each(|x| go(x, out)),
+            LF::Not(g) => go(g, out),
+            LF::Eq(a, v) | LF::Ge(a, v) | LF::Le(a, v) | LF::Approx(a, v) | LF::Ext(a, v) => val(out, a, &[v]),
+            LF::Pres(a) => val(out, a, &[]),
+            LF::Sub(a, i, m, e) => {
+                let vs: Vec<&String> = i.iter().chain(m.iter()).chain(e.iter()).collect();
+                val(out, a, &vs)
+            }
+        }
+    }
+    let mut out = base_attrs();
+    go(f, &mut out);
+    out
+}
+fn scim_attrs(f: &SF) -> std::collections::BTreeSet<String> {
+    fn go(f: &SF, out: &mut std::collections::BTreeSet<String>) {
+        match f {
+            SF::Pres(a, _) | SF::Complex(a) => {
+                out.insert(a.clone());
+            }
+            SF::Cmp(_, a, _, j) => {
+                out.insert(a.clone());
+                if let SJ::Str(v) = j {
+                    if v.contains('@') {
+                        out.insert("spn".to_string());
+                    }
+                }
+            }
+            SF::Not(g) => go(g, out),
+            SF::Or(l, r) | SF::And(l, r) => {
+                go(l, out);
+                go(r, out);
+            }
+        }
+    }
+    let mut out = base_attrs();
+    go(f, &mut out);
+    out
+}
+
 fn err_coq(e: &OperationError) -> &'static str {
     match e {
         OperationError::ResourceLimit => "EResourceLimit",
@@ -281,7 +333,7 @@ fn err_coq(e: &OperationError) -> &'static str {
 fn main() {
     let args = parse_args();
     let mut rng = Rng::new(args.seed);
-    let mut sink = Sink::new(&args, "KV.C41.Model", 40);
+    let mut sink = Sink::new(&args, "KV.C41.Model", 60);
     sink.import("KV.Base.Filter");
     sink.import("Coq.Strings.String");
     sink.rule = "population: 6 groups (2 posix, nested members, entry_managed_by, description), 7 persons (1-3 mail addresses, \
@@ -441,7 +493,7 @@ non-trivial = the server accepted the filter and selected some but not all entri
     stored.sort_by_key(|e| e.get_uuid());
     assert_eq!(stored.len(), all_u.len(), "population incomplete");
     let num_attr = |a: &str| matches!(a, "uuid" | "member" | "memberof" | "directmemberof" | "entry_managed_by" | "gidnumber");
-    let mut pop_items = vec![];
+    let mut pop_items: Vec<Vec<(String, String)>> = vec![];
     let mut pop_txt = vec![];
     for e in &stored {
         let mut kv = vec![];
@@ -463,14 +515,22 @@ non-trivial = the server accepted the filter and selected some but not all entri
                         }
                     })
                     .collect();
-                kv.push(format!("({}, {})", cs(a), clist_s(&vals)));
+                kv.push((a.to_string(), format!("({}, {})", cs(a), clist_s(&vals))));
                 kt.push(format!("{a}={raw:?}"));
             }
         }
-        pop_items.push(clist_s(&kv));
+        pop_items.push(kv);
         pop_txt.push(kt.join(" "));
     }
-    let pop_coq = clist_s(&pop_items);
+    // each case carries only the attributes its filter can look at (always class, uuid, name; spn when
+    // a value could be an spn) - the Coq side spends its time parsing the case text
+    let pop_for = |attrs: &std::collections::BTreeSet<String>| -> String {
+        let items: Vec<String> = pop_items
+            .iter()
+            .map(|kv| clist_s(&kv.iter().filter(|(a, _)| attrs.contains(a)).map(|(_, c)| c.clone()).collect::<Vec<_>>()))
+            .collect();
+        clist_s(&items)
+    };
     if args.extra.iter().any(|x| x == "--dump") {
         for t in &pop_txt {
             println!("{t}");
@@ -564,7 +624,7 @@ non-trivial = the server accepted the filter and selected some but not all entri
         };
         sink.bump(&format!("ldap_{}", if r.is_ok() { "ok" } else { err_coq(r.as_ref().err().expect("err")) }));
         sink.case(
-            format!("(CLdap {} {} {} {} {})", sch_coq, pop_coq, cn(lim), ldap_coq(f), out),
+            format!("(CLdap {} {} {} {} {})", sch_coq, pop_for(&ldap_attrs(f)), cn(lim), ldap_coq(f), out),
             format!("ldap{tag} lim={lim} {} -> {txt}", ldap_txt(f)),
             nt,
         );
@@ -617,7 +677,7 @@ non-trivial = the server accepted the filter and selected some but not all entri
         let f = LF::Or(vec![LF::Eq(ss("name"), ss("ab")), LF::Pres(ss("mail")), LF::And(vec![LF::Eq(ss("cn"), ss("zed"))])]);
         run_ldap(&mut rd, &mut sink, &f, lim, "_budget");
     }
-    let n_ldap = if args.thorough { 4500 } else { 900 };
+    let n_ldap = if args.thorough { 5000 } else { 800 };
     let maxd = if args.thorough { 4 } else { 3 };
     for _ in 0..n_ldap {
         let f = gen_ldap(&mut rng, &w, maxd, 3);
@@ -640,7 +700,7 @@ non-trivial = the server accepted the filter and selected some but not all entri
         };
         sink.bump(&format!("scim_{}", if r.is_ok() { "ok" } else { err_coq(r.as_ref().err().expect("err")) }));
         sink.case(
-            format!("(CScim {} {} {} {} {})", sch_coq, pop_coq, cn(lim), scim_coq(f), out),
+            format!("(CScim {} {} {} {} {})", sch_coq, pop_for(&scim_attrs(f)), cn(lim), scim_coq(f), out),
             format!("scim{tag} lim={lim} {} -> {txt}", scim_txt(f)),
             nt,
         );
@@ -698,7 +758,7 @@ non-trivial = the server accepted the filter and selected some but not all entri
         );
         run_scim(&mut rd, &mut sink, &f, lim, "_budget");
     }
-    let n_scim = if args.thorough { 4500 } else { 900 };
+    let n_scim = if args.thorough { 5000 } else { 800 };
     for _ in 0..n_scim {
         let f = gen_scim(&mut rng, &w, maxd);
         let lim = if rng.chance(1, 6) { rng.range(1, 10) } else { 32 + rng.below(9) };
